@@ -577,3 +577,56 @@ func (e *Engine) enumKeyedMapLiterals(typeName string) []enumTable {
 	}
 	return out
 }
+
+// carriesConsistency: a value of type t can tell a consistency preference: it has a GetConsistency method, or a
+// field of the ConsistencyPreference type, or (to the given depth) a struct field that does.
+func carriesConsistency(t types.Type, depth int) bool {
+	t = derefType(t)
+	for _, tt := range []types.Type{t, types.NewPointer(t)} {
+		ms := types.NewMethodSet(tt)
+		for i := 0; i < ms.Len(); i++ {
+			if n := ms.At(i).Obj().Name(); n == "GetConsistency" {
+				return true
+			}
+		}
+	}
+	st, ok := t.Underlying().(*types.Struct)
+	if !ok {
+		return false
+	}
+	for i := 0; i < st.NumFields(); i++ {
+		ft := st.Field(i).Type()
+		if isConsistencyType(ft) {
+			return true
+		}
+		if depth > 0 {
+			if _, isStruct := derefType(ft).Underlying().(*types.Struct); isStruct && carriesConsistency(ft, depth-1) {
+				return true
+			}
+		}
+	}
+	return false
+}
+
+// hasConsistencySource: some parameter (or the receiver) of the declaration carries a consistency preference the
+// function could inherit.  A function without one builds fresh requests (access-control queries, AuthZEN mapping).
+func hasConsistencySource(info *types.Info, fd *ast.FuncDecl) bool {
+	if fd == nil {
+		return true
+	}
+	var fields []*ast.Field
+	if fd.Recv != nil {
+		fields = append(fields, fd.Recv.List...)
+	}
+	if fd.Type.Params != nil {
+		fields = append(fields, fd.Type.Params.List...)
+	}
+	for _, f := range fields {
+		if t := info.TypeOf(f.Type); t != nil {
+			if isConsistencyType(t) || carriesConsistency(t, 2) {
+				return true
+			}
+		}
+	}
+	return false
+}
